@@ -961,6 +961,8 @@ func genHist(r *hx.Rng, run *hx.Run, i int) histDesc {
 		g.savedThenEdited()
 	}
 	d.Ops, d.Cont = g.ops[:n0:n0], g.ops[n0:]
+	// two histories in three are persisted by the edit server's saver to a real file that is read back from disk
+	d.Saver = []string{"each", "evals", ""}[(i/4+i)%3]
 	return d
 }
 
@@ -1119,7 +1121,9 @@ func savedBetweenHistories() []histDesc {
 		ops := append(append([]Op{}, base...), edits[k]...)
 		// after the reload: another read, then the next kind of edit
 		next := edits[(k+7)%len(edits)]
-		out = append(out, withCont(hist(ops...), append([]Op{{K: "eval"}}, next...)...))
+		h := withCont(hist(ops...), append([]Op{{K: "eval"}}, next...)...)
+		h.Saver = []string{"evals", "each"}[k%2] // the file-level path: GraphSaver writes, the file is read back and loaded
+		out = append(out, h)
 	}
 	return out
 }
@@ -1230,8 +1234,14 @@ func fixedHistories() []histDesc {
 	out = append(out, specialValueHistories()...)
 	out = append(out, widthBoundaryHistories()...)
 	out = append(out, encodingHistories()...)
-	out = append(out, warmCacheHistories()...)
-	out = append(out, continuationHistories()...)
+	for _, h := range warmCacheHistories() {
+		h.Saver = "evals"
+		out = append(out, h)
+	}
+	for k, h := range continuationHistories() {
+		h.Saver = []string{"each", "evals", ""}[k%3]
+		out = append(out, h)
+	}
 	// 11 and 12 connections on one array input, distinct values (DESIGN.md §5 entry 13)
 	for _, n := range []int{11, 12, 25} {
 		ops := []Op{{K: "create", Ty: "sum"}}
